@@ -2,7 +2,7 @@
 // listening on a loopback port (standard and netpoll transport), with raw TCP clients, and records what the
 // public API lets an application observe (spec/ShutdownTrace.tla validates it):
 //
-//	Dial{c} Connected{c} DialFailed{c} Accept{c} OnConnect{c} HandlerEnter{c,r} HandlerExit{c,r,running}
+//	Dial{c} Connected{c} DialFailed{c} Accept{c} OnConnect{c} OnConnectDone{c} HandlerEnter{c,r} HandlerExit{c,r,running}
 //	ResponseComplete{c,r,status,close,bytesOk,n} ResponseTruncated{c,r} ResponseNone{c,r,why} SendFailed{c,r}
 //	ShutdownCall{k} ShutdownReturn{k,err,elapsedMs} ShutdownHung{k} HookStart{h} HookEnd{h}
 //	DialAfter{result} RunReturn{err} RaceTrial{t,callers,nils,errs} Panic{msg} End
@@ -123,7 +123,7 @@ func (l *evlog) flush(tr *vtrace.Writer) {
 	defer l.mu.Unlock()
 	for _, r := range l.evs {
 		ev := r["ev"].(string)
-		if ev == "Accept" || ev == "OnConnect" {
+		if ev == "Accept" || ev == "OnConnect" || ev == "OnConnectDone" {
 			c, ok := l.addrs[r["addr"].(string)]
 			if !ok {
 				c = -1
@@ -206,6 +206,7 @@ func newServer(c *Case, log *evlog, hold func(stage, addr string)) (*server.Hert
 			if hold != nil {
 				hold("cL", conn.RemoteAddr().String())
 			}
+			log.emit("OnConnectDone", vtrace.Rec{"addr": conn.RemoteAddr().String()})
 			return ctx
 		}),
 	}
